@@ -21,6 +21,8 @@ SHARD_TIMEOUT = {"quick": 1500, "thorough": 14000}
 WITNESS = dict(t=305.8254951714443, w=0.2527696099032084, p=(2.0210374219957683e-4, 2.4706515465167615e-3),
                precision=1.1677258281484896e-8, tp=297.2506914878252)
 
+ANCHORS = [('pervaporation/pervaporation.py', 'if iterations > 100000', 'iteration bound of the fixed-point loop')]
+
 
 def shards(tier, seed):
     n = {"quick": 800, "thorough": 19000}[tier]
